@@ -26,6 +26,7 @@ import (
 	"bytes"
 	"fmt"
 	"net/netip"
+	"os"
 	"runtime"
 	"sort"
 	"strconv"
@@ -661,6 +662,17 @@ func c13RunTq(t *testing.T, stats *VStats) {
 
 func TestVerifC13(t *testing.T) {
 	stats := NewVStats()
-	c13RunTq(t, stats)
+	only := os.Getenv("VERIF_C13_ONLY")
+	if only == "" || only == "tq" {
+		c13RunTq(t, stats)
+	}
+	if only == "" || only == "ep" {
+		c13RunEp(t, stats)
+	}
+	if only == "" || only == "seq" {
+		c13RunTrk(t, stats)
+		c13RunDrn(t, stats)
+		c13RunKey(t, stats)
+	}
 	stats.Write("c13")
 }
